@@ -10,7 +10,8 @@
 (*                       hardening (loop / panic outcomes)                 *)
 (*   NtsPacket_gen.cfg   case generator: the shapes the real encoder can   *)
 (*                       emit (1..8 fields), representative replacements   *)
-(*   NtsPacket_f_*.cfg   fault switches: Sound must FAIL (vacuity check)   *)
+(*   NtsPacket_f_*.cfg   fault switches: Sound must FAIL (vacuity check);  *)
+(*                       _f_storefirst: RejectedInert must FAIL            *)
 (***************************************************************************)
 EXTENDS NtsPacket, Json
 
